@@ -136,6 +136,9 @@ type Config struct {
 	Draw      func(n int) int // schedule-stream draw (must be //go:norace all the way down)
 	EstYields int             // rough number of yields of the run when executed serially
 	MaxYields uint64          // livelock bound
+	// Dense: the instrumented code yields tens of thousands of times per operation (group arithmetic): only the
+	// preemption-point policy is used (a handful of tape-drawn yield indices), never a draw per yield.
+	Dense bool
 }
 
 // Begin resets the simulator for a new run and draws the scheduling policy.
@@ -155,6 +158,9 @@ func (s *Sim) Begin(c Config) {
 		s.inOp[i] = 0
 	}
 	s.policy = c.Draw(NPolicies)
+	if c.Dense {
+		s.policy = PolPCT
+	}
 	s.npreempt = 0
 	if s.policy == PolPCT {
 		est := c.EstYields
@@ -162,6 +168,9 @@ func (s *Sim) Begin(c Config) {
 			est = 4
 		}
 		s.npreempt = 1 + c.Draw(4)
+		if c.Dense {
+			s.npreempt += c.Draw(5)
+		}
 		for i := 0; i < s.npreempt; i++ {
 			s.preempt[i] = uint64(c.Draw(2 * est))
 		}
